@@ -2002,6 +2002,15 @@ class Transport(threading.Thread, ClosingContextManager):
         key = self._key_info[self.host_key_type](Message(host_key))
         if key is None:
             raise SSHException("Unknown host key type")
+        # the signature must use the algorithm that was negotiated (for
+        # certificate key types: the plain algorithm they sign with)
+        expected = self.host_key_type.replace("-cert-v01@openssh.com", "")
+        if Message(sig).get_string() != expected.encode("utf-8"):
+            raise SSHException(
+                "Signature does not use the negotiated algorithm ({})".format(
+                    self.host_key_type
+                )
+            )
         if not key.verify_ssh_sig(self.H, Message(sig)):
             raise SSHException(
                 "Signature verification ({}) failed.".format(
